@@ -24,7 +24,7 @@ META = {
     ],
     "stubs": ["sparse constructors on symbolic data -> SymSparse"],
     "outside": ["agreement with MPFA (MPFA local systems are not encodable, see C11)", "3-d grids",
-                "periodic boundaries, Aavatsmark transmissibilities"],
+                "Aavatsmark transmissibilities", "periodic maps other than bottom/top of the 2x2 grid"],
 }
 
 
@@ -53,6 +53,9 @@ def shards(tier, seed):
                 if topo == "line3" and ktype == "full":
                     continue
                 out.append({"topo": topo, "bc": bc, "k": ktype})
+    # periodic bottom/top boundary (deprecated but supported branch), heterogeneous diagonal K
+    for bc in ([0, 0, 0, 0], [1, 1, 1, 1], [1, 0, 1, 0]):
+        out.append({"topo": "cart2x2", "bc": bc, "k": "diag", "periodic": True})
     return out
 
 
@@ -98,6 +101,18 @@ def _scale_geometry(g, sx, sy):
 _NX = {}
 
 
+def _periodic_pairs(g):
+    """Bottom (y = min) faces identified with the top (y = max) faces at the same x."""
+    fc = np.asarray(g.face_centers, dtype=float)
+    ymin, ymax = fc[1].min(), fc[1].max()
+    bottom = [f for f in range(g.num_faces) if abs(fc[1, f] - ymin) < 1e-12]
+    top = [f for f in range(g.num_faces) if abs(fc[1, f] - ymax) < 1e-12]
+    bottom.sort(key=lambda f: fc[0, f])
+    top.sort(key=lambda f: fc[0, f])
+    return np.array([bottom, top])
+
+
+
 def g_face_nx(g, f):
     return _NX[id(g)][f]
 
@@ -109,10 +124,14 @@ def harness(ctx, shard):
     g = _grid(topo)
     _NX[id(g)] = np.asarray(g.face_normals[0]).copy()
     nc = g.num_cells
-    bfaces = g.get_all_boundary_faces()
+    periodic = None
+    if shard.get("periodic"):
+        periodic = _periodic_pairs(g)
+        g.set_periodic_map(periodic)
+    bfaces = g.get_boundary_faces() if periodic is not None else g.get_all_boundary_faces()
     is_dir_b = np.array(shard["bc"][: bfaces.size], dtype=bool)
     bc = pp.BoundaryCondition(g, bfaces[is_dir_b], ["dir"] * int(is_dir_b.sum()))
-    symbolic_geometry = topo in ("line3", "cart2x2")
+    symbolic_geometry = topo in ("line3", "cart2x2") and periodic is None
     if symbolic_geometry:
         sx, sy = ctx.real("dx", 0.25, 4), (ctx.real("dy", 0.25, 4) if g.dim == 2 else 1)
         _scale_geometry(g, sx, sy)
@@ -158,9 +177,17 @@ def harness(ctx, shard):
     for i in range(nc):
         for j in range(i + 1, nc):
             ctx.check("cell-operator-symmetric", A[i, j] == A[j, i], case)
-    internal = np.setdiff1d(np.arange(nf), bfaces)
+    internal = np.setdiff1d(np.arange(nf), g.get_all_boundary_faces())
     for f in internal:
         ctx.check("interior-face-single-valued", z3.Sum([lift(v) for v in flux[f].tolist()]) == 0, case)
+    if periodic is not None:
+        for fl, fr in zip(periodic[0], periodic[1]):
+            for c in range(nc):
+                ctx.check("periodic-face-flux-single-valued", lift(flux[fl, c]) == lift(flux[fr, c]), case)
+            ctx.check("periodic-face-row-sum", z3.Sum([lift(v) for v in flux[fl].tolist()]) == 0, case)
+        if not any(shard["bc"]):
+            for j in range(nc):
+                ctx.check("closed-periodic-domain-conservative", z3.Sum([A[i, j] for i in range(nc)]) == 0, case)
     # constant pressure with matching Dirichlet data -> zero flux on every face
     cst = ctx.real("p0", -4, 4)
     pb = np.zeros(nf, dtype=object)
@@ -228,7 +255,11 @@ def replay_case(case):
         g = pp.StructuredTriangleGrid([1, 1], [1.0, 1.0])
     g.compute_geometry()
     nc, nf = g.num_cells, g.num_faces
-    bfaces = g.get_all_boundary_faces()
+    periodic = None
+    if shard.get("periodic"):
+        periodic = _periodic_pairs(g)
+        g.set_periodic_map(periodic)
+    bfaces = g.get_boundary_faces() if periodic is not None else g.get_all_boundary_faces()
     is_dir_b = np.array(shard["bc"][: bfaces.size], dtype=bool)
     bc = pp.BoundaryCondition(g, bfaces[is_dir_b], ["dir"] * int(is_dir_b.sum()))
     kxx = np.broadcast_to(np.array(case["kxx"], dtype=float), (nc,)).copy()
@@ -243,9 +274,14 @@ def replay_case(case):
     sc = 1 + np.abs(A).max()
     if not np.allclose(A, A.T, atol=1e-9 * sc):
         return True, f"div*flux not symmetric: {A.tolist()}"
-    internal = np.setdiff1d(np.arange(nf), bfaces)
+    internal = np.setdiff1d(np.arange(nf), g.get_all_boundary_faces())
     if np.abs(flux[internal].sum(axis=1)).max(initial=0) > 1e-9 * sc:
         return True, "interior face flux not single valued (row sum != 0)"
+    if periodic is not None:
+        if not np.allclose(flux[periodic[0]], flux[periodic[1]], atol=1e-9 * sc):
+            return True, f"flux over identified periodic faces differs: {flux[periodic[0]].tolist()} vs {flux[periodic[1]].tolist()}"
+        if not any(shard["bc"]) and np.abs(A.sum(axis=0)).max() > 1e-9 * sc:
+            return True, "closed periodic domain is not conservative (column sums of div*flux non-zero)"
     pb = np.zeros(nf)
     pb[bfaces[is_dir_b]] = 1.7
     if np.abs(flux @ np.full(nc, 1.7) + bflux @ pb).max() > 1e-9 * sc:
